@@ -130,6 +130,7 @@ def run(prog, chk):
     _dispatch(prog, chk, R, ev)
     _vtable_registration(prog, chk, R)
     _class_context(prog, chk, R, ex)
+    _this_stamps(prog, chk, R, ex)
     _walks(prog, chk, R)
     _selection_sites(prog, chk, R)
     _cost_tables(prog, chk, R)
@@ -506,6 +507,42 @@ def _vtable_registration(prog, chk, R):
         ok = bool(copies) and all(g.must_precede(set(copies) | set(base_false), n) for n, _, _ in regs)
         chk.ob('R08.3', f, copies[0].ln if copies else f.ln, ok, 'the base\'s vtable is copied before the class\'s own methods are entered (inherited slots exist, own entries override them)',
                key='vtable:inherit:' + f.short + ':' + (f.sig or '')[:24])
+
+
+def _this_stamps(prog, chk, R, ex):
+    """the value bound to `this` is stamped with the class whose code is about to run (the one installed as class context):
+    member calls on `this`, and `this` passed as an argument, resolve from that stamp"""
+    n = 0
+    for f in [x for x in R.ev_methods() if x.body and x.short in ('callMethod', 'runConstructorChain', 'destroyObject', 'runFieldInitialisers')]:
+        g = prog.cfg(f)
+        binds = []
+        for nn, l, r, op in g.writes():
+            l0 = SX.strip(l)
+            if SX.is_node(l0) and l0.get('k') == 'index' and 'm_env' in SX.show(l0.get('base')) and 'this' in SX.show(l0.get('i')):
+                r0 = SX.strip(r)
+                items = r0.get('items') if SX.is_node(r0) and r0.get('k') == 'initlist' else (_args(r0) if SX.is_node(r0) and r0.get('k') == 'construct' else None)
+                if items and SX.strip(items[0]).get('k') == 'ref':
+                    binds.append((nn, SX.strip(items[0])))
+        ctxw = [(nn, SX.strip(r)) for nn, l, r, op in g.writes() if SX.is_this_member(SX.strip(l), 'm_currentClassCtx')]
+        for bn, tv in binds:
+            n += 1
+            stamps = [(nn, SX.strip(r)) for nn, l, r, op in g.writes() if _member_of(l, 'className', tv.get('id')) and g.dominates(nn, bn)]
+            ctx_before = [x for x in ctxw if g.dominates(x[0], bn)]
+            ok, why = False, 'no class-context assignment or no stamp before the binding'
+            if stamps and ctx_before:
+                cx = ctx_before[-1][1] if len(ctx_before) == 1 else max(ctx_before, key=lambda x: len(g.dominators(x[0])))[1]
+                if SX.is_node(cx) and cx.get('k') == 'cond':
+                    cx = SX.strip(cx['t'])
+                st = stamps[-1][1] if len(stamps) == 1 else max(stamps, key=lambda x: len(g.dominators(x[0])))[1]
+                want = SX.show(cx).replace(' ', '')
+                names = [SX.show(SX.strip(x.get('base'))).replace(' ', '') for x in SX.walk(st) if x.get('k') == 'member' and x.get('name') == 'name']
+                ok = bool(names) and all(nm == want for nm in names)
+                why = 'context is %s, stamp is %s' % (SX.show(cx)[:40], SX.show(st)[:60])
+            chk.ob('R08.4', f, bn.ln or f.ln, ok,
+                   '`this` is stamped with the class whose code runs (the class installed as context), not with the receiver\'s dynamic class: %s — with the dynamic class '
+                   'an inherited method that passes `this` on picks the subclass overload and `this.m()` finds a non-virtual method the subclass hides' % why,
+                   key='stamp:this:' + f.short)
+    chk.count('`this` bindings', n, 4)
 
 
 def _class_context(prog, chk, R, ex):
